@@ -3,6 +3,8 @@ package checks
 import (
 	"crypto"
 	"crypto/x509"
+	"encoding/base64"
+	"encoding/json"
 	"fmt"
 	"sync"
 	"time"
@@ -182,6 +184,79 @@ func mediaShort(m string) string {
 var c02SpecTypes = []signature.KeyType{signature.KeyTypeRSA, signature.KeyTypeEC, 0, 7}
 var c02SpecSizes = []int{0, 224, 256, 384, 521, 1024, 2048, 2560, 3072, 4096}
 
+// c02UnstableSpec: an external signer whose KeySpec answer is not stable: truthful for the first k queries, then the next larger spec of
+// the same family (or the other way round); it signs validly for what it announced last and returns its real chain. Whatever the
+// library makes of it: an envelope it emits declares the algorithm that belongs to the leaf key.
+func c02UnstableSpec(c *mc.Ctx, media string) {
+	keyName := []string{"p256-e", "rsa2048-b", "p384-c", "rsa3072-a"}[c.ChooseFree("leaf-key", 4)]
+	k := c.ChooseFree("truthful-answers-before-the-switch", 6)
+	liesFirst := c.ChooseFree("order", 2) == 1
+	key := pki.K(keyName)
+	truth := envenc.SpecOf(key)
+	lie := truth
+	switch {
+	case truth.Type == signature.KeyTypeRSA && truth.Size == 2048:
+		lie.Size = 3072
+	case truth.Type == signature.KeyTypeRSA:
+		lie.Size = 4096
+	case truth.Size == 256:
+		lie.Size = 384
+	default:
+		lie.Size = 521
+	}
+	rs := envenc.NewRemoteSigner(key, pki.X509s(chainFor(keyName)))
+	first, then := truth, lie
+	if liesFirst {
+		first, then = lie, truth
+	}
+	for i := 0; i < k; i++ {
+		rs.SpecSeq = append(rs.SpecSeq, first)
+	}
+	rs.SpecSeq = append(rs.SpecSeq, then)
+	c.Statef("key=%s switch-after=%d liesFirst=%v", key.Kind, k, liesFirst)
+	env, err, pan := signWith(media, rs, signature.SigningSchemeX509)
+	if pan != nil {
+		c.Fail("C02 panic in Sign", "%v", pan)
+		return
+	}
+	ok := err == nil && env != nil
+	c.Outcome(fmt.Sprintf("unstable-spec-sign-accepted=%v", ok))
+	c.Tracef("%s signer for %s answering %v then %v after %d queries (%d queries made) -> err=%v", media, key.Kind, first, then, k, rs.SpecQueries, err)
+	if !ok {
+		return
+	}
+	// what the emitted bytes declare, read by the harness's own decoders
+	declared := ""
+	if media == envenc.MediaJWS {
+		var o struct {
+			Protected string `json:"protected"`
+		}
+		var h struct {
+			Alg string `json:"alg"`
+		}
+		if json.Unmarshal(env, &o) == nil {
+			if raw, derr := base64.RawURLEncoding.DecodeString(o.Protected); derr == nil && json.Unmarshal(raw, &h) == nil {
+				declared = h.Alg
+			}
+		}
+	} else if prot, _, _, _, serr := envenc.SplitSign1(env); serr == nil {
+		if id, ok := envenc.DeclaredCOSEAlg(prot); ok {
+			for _, a := range envenc.Algs {
+				if a.COSE == id {
+					declared = a.Name
+				}
+			}
+		}
+	}
+	if declared == "" {
+		c.Fail("C02 envelope emitted for an unstable signer cannot be decoded", "%s", media)
+		return
+	}
+	if declared != envenc.TableAlg(key.Kind) {
+		c.Fail(fmt.Sprintf("C02 %s Sign emitted an envelope that declares another algorithm than the leaf key's", mediaShort(media)), "leaf %s, declared %s (signer answered %v then %v, switch after %d)", key.Kind, declared, first, then, k)
+	}
+}
+
 func c02RemoteBody(c *mc.Ctx, media string) {
 	keyName := c02LeafKeys[c.ChooseFree("leaf-key", len(c02LeafKeys))]
 	st := c02SpecTypes[c.ChooseFree("spec-type", len(c02SpecTypes))]
@@ -342,6 +417,7 @@ func c02Scenarios(tier mc.Tier) []mc.Scenario {
 			sch := sch
 			out = append(out, mc.Scenario{Name: "C02-verify-" + mediaShort(m) + "-" + sch, Bound: -1, Body: func(c *mc.Ctx) { c02VerifyBody(c, m, sch) }, Params: map[string]string{"format": m, "path": "verify", "scheme": sch}})
 		}
+		out = append(out, mc.Scenario{Name: "C02-remote-signer-unstable-keyspec-" + mediaShort(m), Bound: -1, Expect: 4 * 6 * 2, Body: func(c *mc.Ctx) { c02UnstableSpec(c, m) }, Params: map[string]string{"format": m, "path": "remote signer whose KeySpec answer changes after k queries"}})
 		out = append(out, mc.Scenario{Name: "C02-remote-signer-" + mediaShort(m), Bound: -1, Expect: int64(2 * len(c02LeafKeys) * len(c02SpecTypes) * len(c02SpecSizes)), Body: func(c *mc.Ctx) { c02RemoteBody(c, m) }, Params: map[string]string{"format": m, "path": "remote signer"}})
 		out = append(out, mc.Scenario{Name: "C02-local-signer-" + mediaShort(m), Bound: -1, Body: func(c *mc.Ctx) { c02LocalBody(c, m) }, Params: map[string]string{"format": m, "path": "local signer"}})
 	}
